@@ -15,6 +15,14 @@ for tc in ET.parse(out).getroot().iter("testcase"):
         passed.add(f"{tc.get('classname')}::{tc.get('name')}")
 os.remove(out)
 missing = sorted(base - passed)
+# informational: tests outside the pinned baseline that passed at the reference point (tools/passing_ref.json) and fail now
+import os as _os
+_ref = _os.path.join(_os.path.dirname(_os.path.abspath(__file__)), "passing_ref.json")
+json.dump(sorted(passed), open("/var/tmp/last_passing.json", "w"))
+if _os.path.exists(_ref):
+    _lost = sorted(set(json.load(open(_ref))) - passed - base)
+    for _m in _lost[:20]:
+        print("  LOST-EXTRA (not in the pinned baseline, passed at the reference point)", _m)
 print(f"baseline {len(base)}  passed now {len(passed)}  baseline tests no longer passing: {len(missing)}")
 for m in missing[:40]: print("  MISSING", m)
 sys.exit(1 if missing else 0)
